@@ -288,8 +288,12 @@ func (w *Walker) walkFn(c *Ctx, entry DNF, ls lockState, inDefer bool) lockState
 				o, ok1 := out[b]
 				i2, ok2 := in[s]
 				if ok1 && ok2 && (!sameSet(o.Must, i2.Must) || !sameSet(o.May, i2.May)) {
-					w.Errs = append(w.Errs, fmt.Sprintf("lock state changes across a loop back edge in %s (%s -> %s): undecided",
-						shortFn(fn), o.Must, i2.Must))
+					pos := ""
+					if len(b.Instrs) > 0 {
+						pos = c.E.P.instrPos(b.Instrs[len(b.Instrs)-1])
+					}
+					w.Errs = append(w.Errs, fmt.Sprintf("unbalanced locking in a loop of %s: at the back edge %s the locks held are must=%s may=%s but at loop entry must=%s may=%s (a path through the loop body acquires without releasing, or releases without acquiring): undecided",
+						shortFn(fn), pos, o.Must, o.May, i2.Must, i2.May))
 				}
 			}
 		}
